@@ -5,6 +5,7 @@ package checks
 import (
 	"encoding/json"
 	"fmt"
+	"github.com/mithrandie/csvq/lib/value"
 	"os"
 	"path/filepath"
 	"sort"
@@ -56,6 +57,8 @@ var c20Alphabet = []string{
 	"SELECT n FROM `$DIR/sub/../t`",
 	"SELECT n FROM `$DIR/./t.csv`",
 	"SELECT n FROM u UNION ALL SELECT n FROM t FOR UPDATE",
+	// a cell of u used as a clause value (never fewer than the rows of t), then something that builds new strings
+	"SELECT n FROM t LIMIT (SELECT n FROM u); SELECT 'x' || 'y', 'p' || 'q' INTO @s1, @s2",
 }
 
 // other ways of reading t: for the reference they are the plain SELECT
@@ -73,9 +76,10 @@ const c20CoreLen = 8
 
 // statement boundaries each alphabet entry passes through, as reference steps ("" = no table access)
 var c20Steps = map[string][]string{
-	"IF 1 = 1 THEN SELECT n FROM t; END IF":                         {"", "SELECT n FROM t"},
-	"IF 1 = 1 THEN UPDATE t SET n = n + 1; END IF":                  {"", "UPDATE t SET n = n + 1"},
-	"CASE WHEN 1 = 2 THEN SELECT 1; ELSE SELECT n FROM u; END CASE": {"", "SELECT n FROM u"},
+	"SELECT n FROM t LIMIT (SELECT n FROM u); SELECT 'x' || 'y', 'p' || 'q' INTO @s1, @s2": {"SELECT n FROM t LIMIT (SELECT n FROM u); SELECT 'x' || 'y', 'p' || 'q' INTO @s1, @s2", ""},
+	"IF 1 = 1 THEN SELECT n FROM t; END IF":                                                {"", "SELECT n FROM t"},
+	"IF 1 = 1 THEN UPDATE t SET n = n + 1; END IF":                                         {"", "UPDATE t SET n = n + 1"},
+	"CASE WHEN 1 = 2 THEN SELECT 1; ELSE SELECT n FROM u; END CASE":                        {"", "SELECT n FROM u"},
 }
 
 var c20PProgs = [][]string{
@@ -129,6 +133,9 @@ func (m *c20Model) step(stmt string) []int {
 	switch stmt {
 	case "SELECT n FROM u UNION ALL SELECT n FROM t FOR UPDATE":
 		return append(append([]int{}, m.read("u", true).rows...), m.read("t", true).rows...)
+	case "SELECT n FROM t LIMIT (SELECT n FROM u); SELECT 'x' || 'y', 'p' || 'q' INTO @s1, @s2":
+		m.read("u", false)
+		return append([]int{}, m.read("t", false).rows...)
 	case "DELETE FROM t WHERE n >= 100":
 		e := m.read("t", true)
 		kept := e.rows[:0:0]
@@ -272,6 +279,8 @@ func c20Eval(c *core.Ctx, dir string, cs c20Case, states map[string]struct{}) {
 	tenv := drv.NewText(dir) // results of SELECTs nested in IF/CASE blocks are only visible in the output stream
 	tenv.Tx.AutoCommit = true
 	tenv.Tx.Flags.ExportOptions.Format = option.CSV
+	tenv.SetVar("s1", value.NewNull())
+	tenv.SetVar("s2", value.NewNull())
 	k := 0
 	fsx.SequentialTimeouts(true)
 	fsx.OnStmt = func() {
